@@ -53,6 +53,8 @@ func c15Directed(e func(string)) {
 			e(h + "A=" + op[0] + "@bcq.notify.beforeSend ; C=close@bcq.close.afterFlag!" + rel + " ; C> ; A>")
 		}
 		e(h + "A=getch@bcq.notify.beforeSend ; C=close! ; A> ; C> ; A=getch")
+		// two readers inside notifyWorkers: Close has to wait for both
+		e(h + "A=take@bcq.notify.beforeSend ; B=getch@bcq.notify.beforeSend ; C=close! ; A>! ; C>! ; B> ; C> ; A>")
 		e(h + "C=close@bcq.close.afterFlag ; A=getch! ; B=count ; D=offer:5! ; C> ; A> ; D>")
 		e(h + "C=close@bcq.close.afterLoadCh ; A=getch! ; B=take ; D=put:5! ; C> ; A> ; D>")
 		// consumers blocked in the receive when Close closes the channel
